@@ -274,6 +274,47 @@ def consumer(ctx):
                                  'next identical heartbeat is then reported as a state change and CONmtLastHbState lies' % fname)
 
 
+def consumer_entry_codec(ctx):
+    """1016h:n is one 32-bit value: bits 0..15 heartbeat time, bits 16..23 node id (CiA 301).  The write hands exactly these
+    two fields to the activation, the read composes exactly them; entries of another size are refused / not written."""
+    m = ctx.m
+    P = ['C11']
+    NONE = m.enum('CO_ERR_NONE')
+    wr, rd = 'COTNmtHbConsWrite', 'COTNmtHbConsRead'
+    m.need(wr, rd)
+    for value in (0x00051234, 0x007F0001, 0x0000FFFF, 0x00FF0000, 0x12345678, 0x00000000):
+        trs = _run(m, wr, {'obj->Key': 0x10160100, 'obj->Data': 1, '*buffer': value, 'size': 4, 'call:CONmtHbConsActivate': NONE})
+        bad = None
+        for t in trs:
+            ac = [c for c in t.calls() if c[1] == 'CONmtHbConsActivate']
+            if len(ac) != 1 or ac[0][2][1:3] != [value & 0xFFFF, (value >> 16) & 0xFF]:
+                bad = 'activation called with (time, node) = %s, required (%d, %d)' % ([c[2][1:3] for c in ac], value & 0xFFFF, (value >> 16) & 0xFF)
+            elif t.ret != NONE:
+                bad = 'returns %s' % t.ret
+        if not trs:
+            bad = 'no path'
+        _rep(ctx, P, 'RF13-hbc-entry', wr, '1016h:01 write %08Xh' % value, bad)
+    for size in (1, 2, 8):
+        trs = _run(m, wr, {'obj->Key': 0x10160100, 'obj->Data': 1, '*buffer': 0x00051234, 'size': size})
+        bad = None
+        for t in trs:
+            if 'CONmtHbConsActivate' in t.call_names() or t.ret in (NONE, None):
+                bad = 'entry written with size %d: activation %s, returns %s' % (size, 'CONmtHbConsActivate' in t.call_names(), t.ret)
+        _rep(ctx, P, 'RF13-hbc-entry', wr, '1016h:01 write with size %d is refused' % size, bad)
+    for (time, node_) in ((0x1234, 5), (0xFFFF, 0x7F), (1, 0), (0, 0xFF)):
+        trs = _run(m, rd, {'obj->Key': 0x10160100, 'obj->Data': 1, 'hbc->Time': time, 'hbc->NodeId': node_, 'size': 4},
+                   filt=lambda k, fld: True)
+        bad = None
+        for t in trs:
+            outs = [e[2] for e in t.stores() if e[1].startswith('*')]
+            if outs[-1:] != [time | (node_ << 16)] or t.ret != NONE:
+                bad = 'reads %s, required %08Xh' % ([hex(o) if o is not None else None for o in outs], time | (node_ << 16))
+        if not trs:
+            bad = 'no path'
+        _rep(ctx, P, 'RF13-hbc-entry', rd, '1016h:01 read of (time %d, node %d)' % (time, node_), bad)
+
+
 def run(ctx):
     producer(ctx)
     consumer(ctx)
+    consumer_entry_codec(ctx)
